@@ -77,7 +77,13 @@ EXPLANATION = (
     "rewrite.  R20.5: merge_files_src writes only the "
     "merge_sources result, only to the py path it read (opened with mode "
     "\"w\": appending or updating in place would keep the old text), only in "
-    "OVERWRITE mode.  R20.6: nodes rebuilt by the filters - in a callback or in a helper "
+    "OVERWRITE mode; the open-for-writing (and the backup copy that must "
+    "precede it) is looked for in merge_files_src and in the functions of "
+    "the module it calls (two levels): a helper's parameters stand for the "
+    "arguments of the one call that reaches it, the mode test must guard "
+    "that call statement in merge_files_src, and a helper that is "
+    "referenced anywhere else, a copy and a write in different functions, "
+    "or several calls are refused.  R20.6: nodes rebuilt by the filters - in a callback or in a helper "
     "method a callback reaches, typed as for R20.3, once per typing of the "
     "helper's parameters - get arguments of the "
     "declared field types (no Assign without value); positional arguments "
@@ -98,12 +104,20 @@ EXPLANATION = (
     "expression it holds; tests on other "
     "Optional fields of the node (e.g. `updated_node.value is None`) can go "
     "either way, so `x: Any = ...` surviving because only value-less "
-    "declarations are removed is a violation.  R20.8 (two-site agreement "
+    "declarations are removed is a violation; `return self._helper(node)` "
+    "(a helper method of the class / function of the module, defined once, "
+    "whose body is nothing but if / return over its parameters, given never "
+    "re-bound parameters of the callback) is read as the helper's returns "
+    "under their own path conditions with the arguments substituted (one "
+    "level; anything else is refused).  R20.8 (two-site agreement "
     "printer <-> filter): the typing members the stub printer asks for when "
     "it prints `Any` / a `nothing` return are names the filter's predicate "
     "recognises, and every qualified spelling PrintVisitor._FromTyping can "
     "give such a member (the text itself where it is a matter of constants, "
-    "`typing.X` otherwise) is recognised as well.  What the predicate "
+    "`typing.X` otherwise) is recognised as well.  The predicate is the one "
+    "helper the annotation callbacks call other than as the value they "
+    "return (a helper whose result is returned is the node builder R20.7 "
+    "reads inline; it is refused if its returns are truth values).  What the predicate "
     "recognises is decided by evaluating it (the interpreter of "
     "rules/_util_c20.py: helper methods, @staticmethod, class and module "
     "constants that are bound once and never mutated) on the node the "
@@ -1990,21 +2004,72 @@ def r20_5(ctx):
             f"pyi={src(bound.get('pyi')) if 'pyi' in bound else None}",
             {"py": src(bound["py"]) if "py" in bound else None,
              "pyi": src(bound["pyi"]) if "pyi" in bound else None})
-  # every write to a file
+  # every write to a file: in merge_files_src itself or in a function of the
+  # module it calls (followed two levels; a site = the function + the chain of
+  # calls that leads to it)
+  def callees(f):
+    out = []
+    for c in calls_in(f):
+      if isinstance(c.func, ast.Name):
+        h = mod.functions.get(c.func.id)
+        if h is not None and h is not fn and h is not f and not any(
+            isinstance(n, ast.Name) and n.id == c.func.id and not isinstance(n.ctx, ast.Load)
+            for n in ast.walk(f)) and not any(
+                x.arg == c.func.id for x in ast.walk(f.args) if isinstance(x, ast.arg)):
+          out.append((c, h))
+    return out
+  sites = [(fn, [])]
+  for c1, h1 in callees(fn):
+    sites.append((h1, [c1]))
+    for c2, h2 in callees(h1):
+      sites.append((h2, [c1, c2]))
   writers = []
-  for c in calls_in(fn, name="open"):
-    mode = try_fold(c.args[1]) if len(c.args) > 1 else try_fold(
-        next((k.value for k in c.keywords if k.arg == "mode"), ast.Constant("r")))
-    if not isinstance(mode, str):
-      raise AnalysisError("merge_files_src: open() mode is not a constant")
-    if set(mode) & set("wax+"):
-      writers.append(c)
-  w = _one(writers, "open-for-writing in merge_files_src")
+  for f, chain in sites:
+    for c in calls_in(f, name="open"):
+      mode = try_fold(c.args[1]) if len(c.args) > 1 else try_fold(
+          next((k.value for k in c.keywords if k.arg == "mode"), ast.Constant("r")))
+      if not isinstance(mode, str):
+        raise AnalysisError(f"{f.name}: open() mode is not a constant")
+      if set(mode) & set("wax+"):
+        writers.append((c, f, chain))
+  if len({id(c) for c, _, _ in writers}) == 1 and len(writers) > 1:
+    raise AnalysisError("merge_files_src: the writing helper is reached by several calls")
+  w, wf, chain = _one(writers, "open-for-writing in merge_files_src")
+  funcs = [fn] + [mod.functions[c.func.id] for c in chain]
+  rds = [rd] + [ReachingDefs(mod, f) for f in funcs[1:]]
+  for h in funcs[1:]:
+    # the guard of the one call is the guard of the write only when nothing
+    # else can run the helper
+    refs = [n for n in ast.walk(mod.tree) if isinstance(n, ast.Name) and n.id == h.name]
+    if len(refs) != 1 or h.decorator_list or h.args.vararg or h.args.kwarg or len(
+        [n for n in ast.walk(mod.tree) if isinstance(
+            n, (ast.FunctionDef, ast.AsyncFunctionDef, ast.ClassDef)) and n.name == h.name]) != 1:
+      raise AnalysisError(
+          f"merge_files_src: helper {h.name} is referenced {len(refs)} times / redefined")
+  if chain and not isinstance(mod.parent.get(chain[0]), ast.Expr):
+    raise AnalysisError("merge_files_src: the writing helper is not called as a statement")
+
+  def up(expr, level=None):
+    """The expression of merge_files_src that `expr` of the writing function
+    denotes (a parameter stands for the argument of the call), or None."""
+    level = len(chain) if level is None else level
+    if level == 0:
+      return expr
+    r = rds[level]
+    if not isinstance(expr, ast.Name) or expr.id not in r.params or \
+        r.defs_of(expr) != {r.params[expr.id]}:
+      return None
+    bound_h = bind_args(chain[level - 1], funcs[level])
+    if expr.id not in bound_h:
+      return None
+    return up(bound_h[expr.id], level - 1)
+  wrd = rds[-1]
   w_mode = try_fold(w.args[1]) if len(w.args) > 1 else try_fold(
       next((k.value for k in w.keywords if k.arg == "mode"), ast.Constant("r")))
   # only "w" replaces the text of the file by what is written
   truncates = "w" in w_mode and not set(w_mode) & set("ax+")
-  target_ok = isinstance(w.args[0], ast.Name) and rd.defs_of(w.args[0]) == {p_path}
+  w_target = up(w.args[0]) if w.args else None
+  target_ok = isinstance(w_target, ast.Name) and rd.defs_of(w_target) == {p_path}
   wi = mod.parent.get(w)
   writes = []
   if isinstance(wi, ast.withitem) and isinstance(wi.optional_vars, ast.Name):
@@ -2015,10 +2080,15 @@ def r20_5(ctx):
   else:
     raise AnalysisError("merge_files_src: writer is not `with open(..) as f`")
   content_ok = bool(writes) and all(
-      c.func.attr == "write" and len(c.args) == 1 and [
-          o.expr for o in rd.origins(c.args[0])] == [call] for c in writes)
-  raw = flow.guards(mod.parent, mod.parent[wi])
+      c.func.attr == "write" and len(c.args) == 1 and up(c.args[0]) is not None and [
+          o.expr for o in rd.origins(up(c.args[0]))] == [call] for c in writes)
+  # the mode test must guard the write in merge_files_src itself: the `with`,
+  # or the statement that calls the writing helper
+  raw = flow.guards(mod.parent, mod.enclosing_stmt(chain[0]) if chain else mod.parent[wi])
   g = [(src(t), p) for t, p in raw]
+  for lvl in range(1, len(chain) + 1):
+    inner = mod.enclosing_stmt(chain[lvl]) if lvl < len(chain) else mod.parent[wi]
+    g += [(f"{funcs[lvl].name}: {src(t)}", p) for t, p in flow.guards(mod.parent, inner)]
   conj = []
   for t, p in raw:
     if p:
@@ -2043,15 +2113,23 @@ def r20_5(ctx):
             f"{[src(c.args[0]) for c in writes if c.args]}, guards {g}",
             {"target": src(w.args[0]), "open_mode": w_mode, "guards": g})
   # backup copies the original before it is overwritten
-  copies = [c for c in calls_in(fn) if (dotted(c.func) or "").startswith("shutil.")]
+  copies = []
+  for f, ch in sites:
+    for c in calls_in(f):
+      if (dotted(c.func) or "").startswith("shutil.") and c not in copies:
+        if f is not wf:
+          raise AnalysisError(
+              f"merge_files_src: {f.name} copies a file but {wf.name} writes: order not decided")
+        copies.append(c)
   ok = True
   for c in copies:
     st = mod.enclosing_stmt(c)
-    ok = ok and len(c.args) >= 2 and isinstance(c.args[0], ast.Name) \
-        and rd.defs_of(c.args[0]) == {p_path} and st.lineno < mod.parent[wi].lineno \
+    c_src = up(c.args[0]) if c.args else None
+    ok = ok and len(c.args) >= 2 and isinstance(c_src, ast.Name) \
+        and rd.defs_of(c_src) == {p_path} and st.lineno < mod.parent[wi].lineno \
         and dotted(c.func) in ("shutil.copyfile", "shutil.copy", "shutil.copy2")
     from rules.provenance import executes_before
-    ok = ok and not executes_before(mod, fn, lambda u: u is wi, st)
+    ok = ok and not executes_before(mod, wf, lambda u: u is wi, st)
   ctx.check(ok, "merge_files_src:backup-copies-original-first", MP,
             copies[0].lineno if copies else fn.lineno,
             "a backup must copy py_path before it is overwritten (and nothing "
@@ -2288,6 +2366,89 @@ def _elif_fallthrough(mod, stmt):
   return out
 
 
+_BOOLISH = (ast.Compare, ast.BoolOp)
+
+
+def _inlined_returns(mod, inter, call, caller, stable, depth=0):
+  """`call` (written in `caller`) to a helper method of the class / function of
+  the module, read as if its body stood in place of the call: [(returned
+  expression, [(test, polarity), ..])] per return of the helper, the caller's
+  argument substituted for each parameter.  None when `call` is no such helper
+  call.  AnalysisError when the helper is defined more than once, takes
+  anything but never re-bound parameters of the caller (or fields of them), or
+  its body is more than if / return over its parameters."""
+  if not isinstance(call, ast.Call):
+    return None
+  h = inter.helper_of(call, caller)
+  if h is None:
+    return None
+  if depth:
+    raise AnalysisError(f"{caller.name}: helper {h.name} returns the result of another helper")
+  if isinstance(call.func, ast.Name):
+    defs = [n for n in ast.walk(mod.tree) if isinstance(
+        n, (ast.FunctionDef, ast.AsyncFunctionDef, ast.ClassDef)) and n.name == h.name]
+  else:
+    defs = [n for k in _local_mro(mod, inter.cname) for n in ast.walk(mod.cls(k))
+            if isinstance(n, (ast.FunctionDef, ast.AsyncFunctionDef)) and n.name == h.name]
+  if len(defs) != 1 or defs[0] is not h:
+    raise AnalysisError(f"{caller.name}: helper {h.name} has {len(defs)} definitions")
+  static = _is_static(h, mod) or isinstance(call.func, ast.Name)
+  if [d for d in h.decorator_list if dotted(d) != "staticmethod"] or \
+      isinstance(h, ast.AsyncFunctionDef) or h.args.vararg or h.args.kwarg:
+    raise AnalysisError(f"{caller.name}: helper {h.name}: decorators / signature not understood")
+  bound = bind_args(call, h, skip_self=not static)
+  hp = [a.arg for a in h.args.posonlyargs + h.args.args + h.args.kwonlyargs]
+  if not static:
+    cp = caller.args.posonlyargs + caller.args.args
+    if not cp or hp[0] != cp[0].arg:
+      raise AnalysisError(f"{caller.name}: helper {h.name}: receiver is not {hp[0]}")
+    hp = hp[1:]
+  if set(bound) != set(hp):
+    raise AnalysisError(f"{caller.name}: helper {h.name}: defaulted parameters")
+  for a in bound.values():
+    root = a
+    while isinstance(root, ast.Attribute):
+      root = root.value
+    if not (isinstance(root, ast.Name) and root.id in stable):
+      raise AnalysisError(
+          f"{caller.name}: argument `{src(a)[:40]}` of helper {h.name} is not a parameter")
+
+  def check_body(body):
+    for i, st in enumerate(body):
+      if isinstance(st, ast.Expr) and isinstance(st.value, ast.Constant):
+        continue
+      if isinstance(st, ast.If):
+        check_body(st.body)
+        check_body(st.orelse)
+      elif not (isinstance(st, ast.Return) and st.value is not None):
+        raise AnalysisError(
+            f"{caller.name}: body of helper {h.name} not understood (line {st.lineno})")
+  check_body(h.body)
+  for n in ast.walk(h):
+    if isinstance(n, (ast.NamedExpr, ast.Lambda, ast.ListComp, ast.SetComp, ast.DictComp,
+                      ast.GeneratorExp, ast.Await, ast.Yield, ast.YieldFrom)) or (
+                          isinstance(n, ast.Name) and not isinstance(n.ctx, ast.Load)):
+      raise AnalysisError(f"{caller.name}: body of helper {h.name} not understood")
+  if flow.flow(h, lambda u: ()).exits[-1][0] == "end":
+    raise AnalysisError(f"{h.name}: a path falls off the end (returns None)")
+
+  def sub(e):
+    return _subst(e, lambda n: _subst(bound[n.id], lambda _: None) if isinstance(
+        n, ast.Name) and n.id in bound else None)
+  out = []
+  for r in walk_no_nested(h):
+    if not isinstance(r, ast.Return):
+      continue
+    conds, seen = [], set()
+    for t, pol in list(flow.guards(mod.parent, r)) + _elif_fallthrough(mod, r):
+      if (id(t), pol) not in seen:
+        seen.add((id(t), pol))
+        conds.append((sub(t), pol))
+    for leaf, extra in _ifexp_leaves(sub(r.value)):
+      out.append((leaf, conds + extra))
+  return h, out
+
+
 @rule("R20.7", "C20", floor=7)
 def r20_7(ctx):
   """Where the Any/Never predicate holds, the returned node has no annotation."""
@@ -2422,7 +2583,17 @@ def r20_7(ctx):
         if (id(tp[0]), tp[1]) not in seen:
           seen.add((id(tp[0]), tp[1]))
           base.append(tp)
+      leaves = []
       for leaf, extra in _ifexp_leaves(loc.resolve(r.value)):
+        # `return self._helper(node)`: the helper's own returns, as if inline
+        inl = _inlined_returns(mod, inter, leaf, fn, loc.stable)
+        if inl is None:
+          leaves.append((leaf, extra))
+        else:
+          leaves.extend((l2, extra + c2) for l2, c2 in inl[1])
+      for leaf, extra in leaves:
+        if _inlined_returns(mod, inter, leaf, fn, loc.stable, depth=1) is not None:
+          raise AnalysisError(f"{fn.name}: nested helper call")
         label, kind = classify(leaf)
         del opaque[:]
         vals = [(_k3(t, atom), pol) for t, pol in base + extra]
@@ -2465,11 +2636,29 @@ def _any_predicate(ctx):
     if name not in {f"leave_{X}" for X in _ANNOTATED_FIELD} or \
         _method_env(model, mod, fn) is None:
       continue      # only the callbacks that see a return / variable annotation
+    loc = _Locals(mod, fn)
     for c in calls_in(fn):
       h = inter.helper_of(c, fn)
-      if h is not None:
-        preds.add(h.name)
-        found.append(h)
+      if h is None:
+        continue
+      # role of the call: the value the callback returns (a helper that builds
+      # the replacement node, read inline by R20.7) or anything else (a test)
+      child, par = c, mod.parent.get(c)
+      while isinstance(par, ast.IfExp) and child is not par.test:
+        child, par = par, mod.parent.get(par)
+      if isinstance(par, ast.Return) and par.value is child:
+        _, rets = _inlined_returns(mod, inter, c, fn, loc.stable)
+        for leaf, _conds in rets:
+          if isinstance(leaf, _BOOLISH) or (isinstance(leaf, ast.UnaryOp) and isinstance(
+              leaf.op, ast.Not)) or (isinstance(leaf, ast.Constant) and isinstance(
+                  leaf.value, bool)) or (isinstance(leaf, ast.Call) and (dotted(
+                      leaf.func) in ("isinstance", "bool", "any", "all")
+                                                                 or inter.helper_of(leaf, fn) is not None)):
+            raise AnalysisError(
+                f"{fn.name}: returns the truth value of helper {h.name}")
+        continue
+      preds.add(h.name)
+      found.append(h)
   if len(preds) != 1:
     raise AnalysisError(f"{_ANY_FILTER}: predicates {sorted(preds)}")
   pred = preds.pop()
@@ -3157,4 +3346,84 @@ VARIANTS += [
        "C20-r2/twin_class_names_helper_also_used_for_a_report", "silent"),
     _p("twin-merge-sources-delegates-to-a-helper", "R20.1",
        "C20-r2/twin_merge_sources_delegates", "silent"),
+]
+
+
+# benign/C20-b3r1 (the drop-the-annotation tail of leave_AnnAssign extracted
+# into a @staticmethod of the class: R20.7 reads the helper's returns inline,
+# R20.8 does not take it for the predicate) and benign/C20-b3r2 (the
+# write-with-backup body of merge_files_src extracted into _overwrite(): R20.5
+# follows the call) - and the defects, seeded into these shapes.
+_LEAVE_ANN_HELPER = """    if self._is_any_or_never(original_node.annotation.annotation):
+      return self._without_annotation(updated_node)
+    return original_node
+
+  @staticmethod
+  def _without_annotation(node):
+    if node.value is None:
+      return cst.RemovalSentinel.REMOVE
+    return cst.Assign(
+        targets=[cst.AssignTarget(target=node.target)],
+        value=node.value,
+        semicolon=node.semicolon,
+    )
+"""
+_OVERWRITE_CALL = "    _overwrite(py_path, annotated_src, backup)\n"
+_OVERWRITE_DEF = """def _overwrite(py_path, annotated_src, backup):
+  if backup:
+    shutil.copyfile(py_path, f"{py_path}.{backup}")
+  with open(py_path, "w") as f:
+    f.write(annotated_src)
+
+
+"""
+_MERGE_TREE = "def merge_tree(\n"
+
+
+def _ow(name, call=_OVERWRITE_CALL, helper=_OVERWRITE_DEF, expect="fire"):
+  return {"name": name, "rule": "R20.5", "expect": expect,
+          "edits": [(MP, _WRITE_OLD, call), (MP, _MERGE_TREE, helper + _MERGE_TREE)]}
+
+
+VARIANTS += [
+    _p("twin-refactoring-C20-b3r1", "R20.7", "C20-b3r1/patch", "silent"),
+    _p("twin-refactoring-C20-b3r1-predicate", "R20.8", "C20-b3r1/patch", "silent"),
+    _v("twin-annassign-tail-in-a-static-helper", "R20.7", _LEAVE_ANN_OLD,
+       _LEAVE_ANN_HELPER, "silent"),
+    _v("twin-annassign-tail-in-a-static-helper-predicate", "R20.8", _LEAVE_ANN_OLD,
+       _LEAVE_ANN_HELPER, "silent"),
+    _v("annassign-helper-keeps-bare-declarations", "R20.7", _LEAVE_ANN_OLD,
+       _LEAVE_ANN_HELPER.replace("      return cst.RemovalSentinel.REMOVE\n",
+                                 "      return node\n")),
+    _v("annassign-helper-rebuilds-the-annotated-node", "R20.7", _LEAVE_ANN_OLD,
+       _LEAVE_ANN_HELPER.replace("    return cst.Assign(\n", "    return node.with_changes(\n")
+       .replace("        targets=[cst.AssignTarget(target=node.target)],\n", "")),
+    _v("annassign-helper-with-a-statement-not-understood", "R20.7", _LEAVE_ANN_OLD,
+       _LEAVE_ANN_HELPER.replace("    if node.value is None:\n",
+                                 "    assert node is not None\n    if node.value is None:\n"),
+       "error"),
+    {"name": "annassign-helper-and-filter-forgets-never", "rule": "R20.8", "expect": "fire",
+     "edits": [(MP, _LEAVE_ANN_OLD, _LEAVE_ANN_HELPER),
+               (MP, '        and annotation.value in ("Any", "Never")\n',
+                '        and annotation.value in ("Any",)\n')]},
+    _p("twin-refactoring-C20-b3r2", "R20.5", "C20-b3r2/patch", "silent"),
+    _ow("twin-write-with-backup-in-a-helper", expect="silent"),
+    _ow("helper-backup-after-overwrite", helper=_OVERWRITE_DEF.replace(
+        '  if backup:\n    shutil.copyfile(py_path, f"{py_path}.{backup}")\n', "").replace(
+            "    f.write(annotated_src)\n", "    f.write(annotated_src)\n  if backup:\n"
+            '    shutil.copyfile(py_path, f"{py_path}.{backup}")\n')),
+    _ow("helper-given-the-old-text",
+        call="    _overwrite(py_path, py_src, backup)\n"),
+    _ow("helper-given-swapped-arguments",
+        call="    _overwrite(annotated_src, py_path, backup)\n"),
+    _ow("helper-appends", helper=_OVERWRITE_DEF.replace('"w"', '"a"')),
+    {"name": "helper-called-in-every-mode", "rule": "R20.5", "expect": "fire",
+     "edits": _ow("")["edits"] + [
+         (MP, "  elif mode == Mode.OVERWRITE and changed:", "  elif changed:")]},
+    _ow("helper-called-twice", expect="error",
+        call=_OVERWRITE_CALL + "  if mode == Mode.PRINT:\n    pass\n"
+        "  else:\n" + _OVERWRITE_CALL),
+    _ow("helper-also-called-from-elsewhere", expect="error",
+        helper=_OVERWRITE_DEF + "def _force(py_path, text):\n"
+        "  _overwrite(py_path, text, None)\n\n\n"),
 ]
